@@ -46,6 +46,10 @@ pub struct Gen<'a, 'b> {
 	/// allow std.extVar("v") / top-level parameters (embedding tests)
 	pub ext_vars: Vec<(String, Ty)>,
 	pub use_trace: bool,
+	/// how call sites pass their arguments (see call_site)
+	pub call_style: u8,
+	/// use std.map / std.foldl (strict in their elements in jrsonnet: a recorded finding) instead of comprehensions
+	pub std_hof: bool,
 }
 #[derive(Default, Clone, Debug)]
 pub struct GenStats {
@@ -91,7 +95,7 @@ pub fn any_ty(src: &mut Src, depth: usize) -> Ty {
 
 impl<'a, 'b> Gen<'a, 'b> {
 	pub fn new(src: &'a mut Src<'b>) -> Self {
-		Self { src, counter: 0, err_pct: 12, budget: 60, stats: GenStats::default(), ext_vars: vec![], use_trace: false }
+		Self { src, counter: 0, err_pct: 12, budget: 60, stats: GenStats::default(), ext_vars: vec![], use_trace: false, call_style: 0, std_hof: false }
 	}
 	fn fresh(&mut self, env: &Env, base: &str) -> String {
 		// occasionally reuse (shadow) a name from an outer scope
@@ -158,7 +162,8 @@ impl<'a, 'b> Gen<'a, 'b> {
 			1 => {
 				// ill-typed: a value of another type
 				let other = match ty {
-					Ty::Num => Ty::Str,
+					// (not a string: `string * number` is a jrsonnet extension outside the standard language)
+					Ty::Num => Ty::Bool,
 					Ty::Str => Ty::Num,
 					Ty::Bool => Ty::Num,
 					_ => Ty::Bool,
@@ -358,27 +363,45 @@ impl<'a, 'b> Gen<'a, 'b> {
 			(Ex::Func(params, bx(body)), ps)
 		};
 		// arguments: positional prefix, then named (possibly reordered); parameters with defaults may be omitted
+		// The same tape decides which parameters receive an argument; `call_style` only decides how they are passed
+		// (0 = as drawn, 1 = positionally wherever possible, 2 = all by name, reversed).
 		let mut args = vec![];
 		let mut named = vec![];
 		let npos = self.src.below(ps.len() + 1);
+		let mut gap = false;
 		for (i, (n, t, has_def)) in ps.iter().enumerate() {
-			if i < npos {
-				args.push(self.expr(env, t, d1));
-			} else if *has_def && self.src.chance(1, 2) {
-				// omitted
+			let drawn_positional = i < npos;
+			let omitted = !drawn_positional && *has_def && self.src.chance(1, 2);
+			if omitted {
+				gap = true;
+				continue;
+			}
+			let value = self.expr(env, t, d1);
+			let positional = match self.call_style {
+				1 => !gap,
+				2 => false,
+				_ => drawn_positional,
+			};
+			if positional {
+				args.push(value);
 			} else {
-				named.push((n.clone(), self.expr(env, t, d1)));
+				named.push((n.clone(), value));
 				self.stats.named_call = true;
 			}
 		}
-		if named.len() >= 2 && self.src.chance(1, 2) {
+		// (drawn unconditionally: every call style must consume the tape identically)
+		let reverse = self.src.chance(1, 2);
+		if (reverse && self.call_style == 0) || self.call_style == 2 {
 			named.reverse();
 		}
 		// arity errors, sometimes
 		if self.src.below(100) < self.err_pct / 3 {
 			self.stats.planted_errors += 1;
 			if self.src.chance(1, 2) {
-				args.push(num(0.0));
+				// more positional arguments than parameters, whatever the call style
+				for _ in 0..=ps.len() {
+					args.push(num(0.0));
+				}
 			} else {
 				named.push(("nosuch".to_owned(), num(0.0)));
 			}
@@ -417,6 +440,9 @@ impl<'a, 'b> Gen<'a, 'b> {
 				5 => self.recursion(env, d1),
 				_ => {
 					let a = self.expr(env, &Ty::Arr(Box::new(Ty::Num)), d1);
+					if !self.std_hof {
+						return std_call("length", vec![a]);
+					}
 					std_call("foldl", vec![Ex::Func(vec![Param { name: "acc".into(), default: None }, Param { name: "it".into(), default: None }], bx(Ex::Bin(BinOp::Add, bx(var("acc")), bx(var("it"))))), a, num(0.0)])
 				}
 			},
@@ -524,6 +550,10 @@ impl<'a, 'b> Gen<'a, 'b> {
 					let mut env2 = env.clone();
 					env2.vars.push(Var { name: xv.clone(), ty: from });
 					let body = self.expr(&env2, t, d1);
+					if !self.std_hof {
+						// the same mapping written as a comprehension (std.map is strict in jrsonnet: recorded under C03/C10)
+						return Ex::ArrComp(bx(body), vec![Comp::For(xv, a)]);
+					}
 					std_call("map", vec![Ex::Func(vec![Param { name: xv, default: None }], bx(body)), a])
 				}
 				7 if **t == Ty::Str => {
@@ -730,18 +760,54 @@ impl<'a, 'b> Gen<'a, 'b> {
 pub fn closed_expr(src: &mut Src, depth: usize) -> Ex {
 	let ty = any_ty(src, 2);
 	let mut g = Gen::new(src);
-	let mut env = Env::default();
-	env.vars.push(Var { name: "std".into(), ty: Ty::Any });
+	let env = Env::default();
 	g.expr(&env, &ty, depth)
 }
 
-pub fn closed_with_stats(src: &mut Src, depth: usize, budget: isize, err_pct: usize) -> (Ex, GenStats) {
+pub struct Program {
+	/// body with the free variables `ext`
+	pub body: Ex,
+	/// externally supplied values: (name, type, literal)
+	pub ext: Vec<(String, Ty, Ex)>,
+	pub stats: GenStats,
+}
+impl Program {
+	/// the closed form: `local e0 = lit0, ...; body`
+	pub fn closed(&self) -> Ex {
+		if self.ext.is_empty() {
+			return self.body.clone();
+		}
+		Ex::Local(self.ext.iter().map(|(n, _, l)| Bind::Var(n.clone(), l.clone())).collect(), bx(self.body.clone()))
+	}
+}
+
+/// Program with `n_ext` externally supplied leaf values.  The same tape with a different `call_style` yields the
+/// same program with the arguments of every call passed differently.
+pub fn program(src: &mut Src, depth: usize, budget: isize, err_pct: usize, call_style: u8, n_ext: usize) -> Program {
 	let ty = any_ty(src, 2);
+	let mut ext = vec![];
+	let mut env = Env::default();
+	for i in 0..n_ext {
+		let t = leaf_ty(src);
+		let name = format!("ext{i}");
+		env.vars.push(Var { name: name.clone(), ty: t.clone() });
+		ext.push((name, t));
+	}
 	let mut g = Gen::new(src);
 	g.budget = budget;
 	g.err_pct = err_pct;
-	let mut env = Env::default();
-	env.vars.push(Var { name: "std".into(), ty: Ty::Any });
-	let e = g.expr(&env, &ty, depth);
-	(e, g.stats)
+	g.call_style = call_style;
+	let ext: Vec<(String, Ty, Ex)> = ext
+		.into_iter()
+		.map(|(n, t)| {
+			let l = match &t {
+				// externally supplied strings are plain double-quoted literals
+				Ty::Str => s(*g.src.pick(STRS)),
+				t => g.lit(t),
+			};
+			(n, t, l)
+		})
+		.collect();
+	let body = g.expr(&env, &ty, depth);
+	Program { body, ext, stats: g.stats }
 }
